@@ -442,3 +442,66 @@ def cumulation_and_keyword_shifts_native(B):
                             if not np.allclose(r.get_data(span), x.get_data(span), rtol=1e-9):
                                 B.fail(f"{cname} with shift {kw!r} and the original as initial condition does not reproduce the original", {"class": cls.__name__, "n": n, "variants": nv})
                                 return
+
+
+# ------------------------------------------------------------------------------ series level: keyword shifts
+def _ref_serial(K, kw, t, F):
+    """Serial of the reference period of a regular period with serial t (serial = year*F + segment - 1)."""
+    seg0 = t % F                       # zero-based segment within the year (serials here are positive)
+    if kw == "yoy":
+        return t - F
+    if kw == "soy":
+        return t - seg0
+    if kw == "eopy":
+        return t - seg0 - 1
+    raise KeyError(kw)
+
+
+@contract("C13", targets=["irispie.series.main:Series.shift", "irispie.series.main:Series._shift_yoy", "irispie.series.main:Series._shift_soy",
+                          "irispie.series.main:Series._shift_eopy", "irispie.series.main:Series._replace_data", "irispie.series.main:Series.get_data",
+                          "irispie.dates:RegularPeriodMixin.create_soy", "irispie.dates:RegularPeriodMixin.create_eopy"],
+          instances=[(kw, cls) for kw in ("yoy", "soy", "eopy") for cls in (D.QuarterlyPeriod, D.HalfyearlyPeriod)], opts={"max_paths": 6000})
+def keyword_shift_moves_the_reference_observation_into_place(K, kw, cls):
+    """x.shift("yoy"|"soy"|"eopy") on a series of unbounded length: afterwards the value AT period t is the observation of
+    the documented reference period of t (same period a year earlier / first period of t's year / last period of the
+    year before), for every t of the original span - so that f(x, shifted x) is the documented keyword-shift change."""
+    F = int(cls.frequency)
+    x, xs, xd = mk_series(K, "x", cls, 1)
+    old = K.snapshot(xd)
+    rows = K.shape(xd)[0]
+    K.method(x, "shift", kw)
+    ns, nd = state(K, x)
+    t, c = generic_cell(K, cls, 1)
+    K.instantiate(t)
+    ref = _ref_serial(K, kw, t, F)
+    K.instantiate(ref)
+    if kw == "yoy":
+        want = V(K, xs, old, ref, c)            # the whole series moves by a year
+    else:
+        inside = K.And(t >= xs, t < xs + rows)
+        want = K.cell_ite(inside, lambda: V(K, xs, old, ref, c), lambda: K.nan_cell())
+    K.ensure(f"after shift({kw!r}) period t holds the observation of its reference period", K.cell_eq(V(K, ns, nd, t, c), want))
+
+
+@contract("C13", targets=["irispie.series.main:Series.shift", "irispie.series.main:Series._shift_tty", "irispie.dates:RegularPeriodMixin.create_tty",
+                          "irispie.series.main:Series.set_data", "irispie.series.main:Series.get_data"],
+          instances=[(D.QuarterlyPeriod, 6, 0), (D.QuarterlyPeriod, 6, 1), (D.HalfyearlyPeriod, 4, 1)], cross=4, opts={"max_paths": 6000})
+def throughout_the_year_shift_on_a_series(K, cls, rows, neutral):
+    """x.shift("tty", neutral_value=n) on a fully observed series of a fixed number of periods starting in ANY period of
+    the year: afterwards every period that is not the first of its year holds the observation of the period before it,
+    and every start-of-year period holds the neutral value."""
+    F = int(cls.frequency)
+    lo, hi = 8000, 8040
+    start = K.int("x_start", lo, hi)
+    data = K.array("x_data", (rows, 1), nan=False)
+    x = K.obj(Series, start=K.obj(cls, serial=start), data=data, data_type=np.float64, metadata={}, __description__="")
+    old = K.snapshot(data)
+    K.method(x, "shift", "tty", neutral_value=neutral)
+    ns, nd = state(K, x)
+    for i in range(rows):
+        t = start + i
+        first_of_year = (t % F) == 0
+        prev = K.cell(old, i - 1, 0) if i > 0 else K.nan_cell()
+        want = K.cell_ite(first_of_year, lambda: K.real_cell(K.frac(neutral)), lambda: prev)
+        K.instantiate(t)
+        K.ensure(f"period {i} after shift('tty')", K.cell_eq(V(K, ns, nd, t, 0), want))
